@@ -38,10 +38,16 @@ func init() {
 		runner.Part{Scenario: "simhost", Params: p("pmember", "10", "ptransfer", "10"), Share: 1})
 	sh("C04", 90, 1200, runner.Part{Scenario: "simhost", Params: p("pcrash", "12", "fsyield", "300", "torn", "1"), Share: 2},
 		runner.Part{Scenario: "simhost", Params: p("pcrash", "6", "fsyield", "50"), Share: 1})
+	sh("C05", 90, 1200, runner.Part{Scenario: "simhost", Params: p("sessions", "1", "sm", "1", "timeout", "30", "pdrop", "80", "pdup", "30", "ops", "40"), Share: 2},
+		runner.Part{Scenario: "simhost", Params: p("sessions", "1", "sm", "2", "lru", "2", "clients", "4", "snapshot", "5", "pcrash", "6"), Share: 2},
+		runner.Part{Scenario: "simhost", Params: p("sessions", "1", "lru", "3", "clients", "4", "ptransfer", "8", "ppartition", "8"), Share: 1})
 	sh("C06", 90, 1200, runner.Part{Scenario: "simhost", Params: p("readmix", "70", "ppartition", "10", "pdup", "30", "preorder", "40", "ptransfer", "8"), Share: 2},
 		runner.Part{Scenario: "simhost", Params: p("readmix", "60", "pmember", "10", "pcrash", "5"), Share: 1})
 	sh("C07", 90, 1200, runner.Part{Scenario: "simhost", Params: p("pmember", "20", "hosts", "4"), Share: 2},
 		runner.Part{Scenario: "simhost", Params: p("pmember", "12", "hosts", "5", "pcrash", "6"), Share: 1})
+	sh("C08", 90, 1200, runner.Part{Scenario: "simhost", Params: p("snapshot", "5", "overhead", "0", "pcrash", "6", "ppartition", "8", "ops", "40"), Share: 2},
+		runner.Part{Scenario: "simhost", Params: p("snapshot", "12", "overhead", "2", "psnapreq", "10", "pstop", "4", "compress", "1"), Share: 1},
+		runner.Part{Scenario: "simhost", Params: p("snapshot", "5", "sm", "3", "pcrash", "8", "pmember", "6", "hosts", "4"), Share: 1})
 	sh("C11", 90, 1200, runner.Part{Scenario: "simhost", Params: p("smyield", "500", "pstop", "6", "psnapreq", "10"), Share: 2},
 		runner.Part{Scenario: "simhost", Params: p("smyield", "300", "pcrash", "6"), Share: 1})
 	sh("C12", 90, 1200, runner.Part{Scenario: "simhost", Params: p("pstop", "4", "timeout", "30"), Share: 2},
